@@ -1,9 +1,9 @@
 package sx
 
 import (
-	"os"
 	"go/token"
 	"go/types"
+	"os"
 
 	"golang.org/x/tools/go/ssa"
 )
